@@ -840,3 +840,53 @@ MA('C16', 'inverse drops pad_mode', DOPF, 'ResizingOperator.inverse',
    'ResizingOperator.inverse')
 MA('C16', 'resize_discr right count', DOPF, '_resize_discr',
    'num_r = n_diff - off', 'num_r = n_diff', '_resize_discr')
+
+# ---- C15 -------------------------------------------------------------------
+DUF = 'odl/discr/discr_utils.py'
+MA('C15', 'linear lower weight is the distance', DUF,
+   '_compute_linear_weights_edge', 'w_lo = 1 - ndist', 'w_lo = ndist * 1',
+   'C15-R1')
+MA('C15', 'nearest tie goes left', DUF, '_NearestInterpolator._evaluate',
+   'idx_res.append(np.where(yi < 0.5, i, i + 1))',
+   'idx_res.append(np.where(yi <= 0.5, i, i + 1))', 'nearest_interpolator')
+MA('C15', 'index clamp one too high', DUF, '_Interpolator._find_indices',
+   'idcs[idcs > cvec.size - 2] = cvec.size - 2',
+   'idcs[idcs > cvec.size - 1] = cvec.size - 1', 'C15-R')
+M('C15', 'corner labels swapped', DUF, "product(*([['l', 'h']] * len(indices)))",
+  "product(*([['h', 'l']] * len(indices)))", 'C15-R1')
+MA('C15', 'per-axis nearest weights overlap at the tie', DUF,
+   '_compute_nearest_weights_edge', 'w_lo = np.where(ndist < 0.5, 1.0, 0.0)',
+   'w_lo = np.where(ndist <= 0.5, 1.0, 0.0)', 'per_axis_interpolator[nearest]')
+MA('C15', 'integer accumulator regression', DUF,
+   '_PerAxisInterpolator._evaluate',
+   'out_dtype = np.result_type(self.values.dtype, np.float16)',
+   'out_dtype = self.values.dtype', 'C15-R5')
+MA('C15', 'distance normalised by the first cell', DUF,
+   '_Interpolator._find_indices',
+   'norm_distances.append((xi - cvec[idcs]) / (cvec[idcs + 1] - cvec[idcs]))',
+   'norm_distances.append((xi - cvec[idcs]) / (cvec[1] - cvec[0]))',
+   'C15-R3')
+MA('C15', 'in-place accumulator not cleared', DUF,
+   '_PerAxisInterpolator._evaluate', 'out[:] = 0.0', 'pass', ':out')
+MA('C15', 'per-axis nearest picks the lower node in the upper half', DUF,
+   '_compute_nearest_weights_edge', 'w_hi = np.where(ndist < 0.5, 0.0, 1.0)',
+   'w_hi = np.where(ndist < 0.75, 0.0, 1.0)', 'per_axis_interpolator')
+MA('C15', 'linear low edge index not reset below the hull', DUF,
+   '_compute_linear_weights_edge', 'edge[1][lo] = 0', 'pass', 'C15-R1')
+MA('C15', 'nearest interpolator averages in the upper half', DUF,
+   '_NearestInterpolator._evaluate', 'return self.values[idx_res]',
+   'return self.values[idx_res] * 1', 'C15-R2')
+MA('C15', 'Resampling interpolates on the range nodes', 'odl/discr/discr_ops.py',
+   'Resampling._call', 'interpolator = per_axis_interpolator(...',
+   'interpolator = per_axis_interpolator(x, self.range.grid.coord_vectors, self.interp)',
+   'Resampling._call')
+MA('C15', 'element samples with default dtype', 'odl/discr/discr_space.py',
+   'DiscretizedSpace.element', 'func = sampling_function(...',
+   'func = sampling_function(inp, self.domain)', 'DiscretizedSpace.element')
+MA('C15', 'linear_deform subtracts the displacement', 'odl/deform/linearized.py',
+   'linear_deform', 'points[:, i] += vi.asarray().ravel()',
+   'points[:, i] -= vi.asarray().ravel()', 'linear_deform')
+MA('C15', 'out after a defaulted argument is optional', DUF,
+   '_check_func_out_arg',
+   "out_optional = pos_args.index('out') >= len(pos_args) - len(pos_defaults)",
+   "out_optional = len(pos_defaults) > 0", '_func_out_type')
